@@ -117,6 +117,8 @@ CONFIGS = {
     "wg_any4": [["wireguard", [["0.0.0.0", 8080]]]],
     "two": [["regular", [["127.0.0.1", 8081]]], ["socks5", [["192.168.1.5", 8080]]]],
     "lo4_alias": [["transparent", [["127.0.0.5", 8080]]]],
+    # listen_host is a name that resolves to two addresses: one server instance, two explicit sockets
+    "dual_explicit": [["regular", [["2001:db8::5", 8080], ["192.168.1.5", 8080]]]],
 }
 CONFIGS_THOROUGH = dict(CONFIGS, **{
     "all_dns": [["dns", [["::", 8080], ["0.0.0.0", 8080]]]],
